@@ -176,7 +176,9 @@ template <> struct raw<0> {   // x_iterator is a pixel pointer
         size_t bytes = rowbytes * (size_t)h;
         unsigned char* buf = use_guard ? (unsigned char*)gb::guard_alloc(bytes, side) : (unsigned char*)malloc(bytes ? bytes : 1);
         memset(buf, 0x5A, bytes);
-        V v = gil::interleaved_view(w, h, (xit)(void*)buf, (std::ptrdiff_t)rowbytes);
+        // both overloads: (width, height, ...) and (point, ...)
+        V v = ((w + h) & 1) ? gil::interleaved_view(gil::point<std::ptrdiff_t>(w, h), (xit)(void*)buf, (std::ptrdiff_t)rowbytes)
+                            : gil::interleaved_view((std::size_t)w, (std::size_t)h, (xit)(void*)buf, (std::ptrdiff_t)rowbytes);
         visitor vis; vis.algos = (w * h <= 36);
         for_each_word(v, depth, vis);
         if (use_guard) gb::guard_free(buf); else free(buf);
